@@ -121,6 +121,8 @@ func (r *Runtime) Load(ctx context.Context, filter any) error {
 		values = append(values, &value.Value{Data: r.environment})
 	}
 
+	verifYield()
+
 	var symbols []*symbol.Symbol
 	var errs []error
 	for _, unstructured := range specs {
